@@ -1,7 +1,7 @@
 (* C13 — property theorems only. Each is closed by [exact] of a lemma proved in C13/Proofs*.v. *)
 From Coq Require Import List Arith Bool.
 Import ListNotations.
-From AgileV Require Import C13.Model C13.Proofs C13.ProofsInv C13.ProofsSurface C13.ProofsGenuine C13.ProofsTimed C13.ProofsDeath.
+From AgileV Require Import C13.Model C13.Proofs C13.ProofsInv C13.ProofsSurface C13.ProofsGenuine C13.ProofsTimed C13.ProofsDeath C13.ProofsSync C13.ProofsKill.
 
 (* Misuse — waiting without a pending call, a second call (or set_attr) while one is pending, any call after
    close() — returns the documented error and leaves the whole state (parent and workers) unchanged,
@@ -190,6 +190,87 @@ Theorem pending_wait_no_hang : forall fin e,
 Proof. exact (fun fin e HI => proj2 (wait_core_inv fin e HI)). Qed.
 Print Assumptions pending_wait_no_hang.
 
+(* Workers may be killed (SIGKILL) and sleepers may wake up at ANY moment between X_async and the matching X_wait —
+   any number of times, any indices, in any reachable open state, under any plans: the wait never hangs (it returns
+   answers, re-raises an exception, reports a timeout or reports the death), it is not mistaken for misuse, and
+   close() afterwards is total. *)
+Theorem kill_any_time_no_hang : forall k fin ops e,
+  closed e = false -> InvOpen e -> fst (async k e) = Ok -> Forall harness_op ops ->
+  let e2 := snd (run (snd (async k e)) ops) in
+  fst (wait k fin e2) <> Hang /\ fst (wait k fin e2) <> NoAsyncCall /\ fst (wait k fin e2) <> ClosedErr /\
+  fst (close false false (snd (wait k fin e2))) = Ok.
+Proof. exact kill_any_time_no_hang_lemma. Qed.
+Print Assumptions kill_any_time_no_hang.
+
+(* the reason: while every worker is dead, has an answer outstanding or is still busy, a wait cannot hang *)
+Theorem wait_no_hang_when_all_dead_or_ready : forall fin e,
+  InvOpen e -> all_dor e -> fst (wait_core fin e) <> Hang.
+Proof. exact wait_core_dor_no_hang. Qed.
+Print Assumptions wait_no_hang_when_all_dead_or_ready.
+
+(* ---- the synchronous wrappers reset() / step() / call() = X_async, then X_wait() without timeout ---- *)
+Theorem sync_misuse_rejected : forall k e,
+  (closed e = true -> sync k e = (ClosedErr, e)) /\
+  (closed e = false -> st e <> DEFAULT -> sync k e = (AlreadyPending, e)).
+Proof. exact sync_misuse_rejected_lemma. Qed.
+Print Assumptions sync_misuse_rejected.
+
+Theorem sync_healthy : forall k e,
+  clean e -> Forall (fun w => next w = Normal) (ws e) ->
+  fst (sync k e) = Ok /\ clean (snd (sync k e)) /\ got (snd (sync k e)) = map nseen (ws e) /\
+  ws (snd (sync k e)) = map emptied (ws e).
+Proof. exact sync_healthy_lemma. Qed.
+Print Assumptions sync_healthy.
+
+Theorem sync_fault_surfaces : forall k e,
+  clean e -> Forall calm (ws e) -> raised (ws e) <> [] ->
+  fst (sync k e) = Exc (last (map snd (raised (ws e))) 0) /\ st (snd (sync k e)) = DEFAULT /\
+  closed (snd (sync k e)) = false.
+Proof. exact sync_fault_surfaces_lemma. Qed.
+Print Assumptions sync_fault_surfaces.
+
+Theorem sync_death_surfaces : forall k e,
+  clean e -> Forall mortal (ws e) -> Exists (fun w => next w = Die) (ws e) ->
+  fst (sync k e) = EOFErr /\ st (snd (sync k e)) = wst k /\ closed (snd (sync k e)) = false.
+Proof. exact sync_death_surfaces_lemma. Qed.
+Print Assumptions sync_death_surfaces.
+
+(* a wrapper never leaves a call pending, except when a worker is gone / a pipe was dropped / it never returned *)
+Theorem sync_leaves_nothing_pending : forall k e,
+  closed e = false -> st e = DEFAULT -> st (snd (sync k e)) <> DEFAULT ->
+  fst (sync k e) = EOFErr \/ fst (sync k e) = Hang \/ fst (sync k e) = AttrErr.
+Proof. exact sync_leaves_nothing_pending_lemma. Qed.
+Print Assumptions sync_leaves_nothing_pending.
+
+(* the wrappers keep the invariant of reachable states, and close() is total from ANY state that satisfies it: so
+   close_total extends to every mix of asynchronous calls, wrappers, misuse, kills and wake-ups *)
+Theorem sync_keeps_invariant : forall k e, Inv e -> Inv (snd (sync k e)).
+Proof. exact sync_Inv_lemma. Qed.
+Print Assumptions sync_keeps_invariant.
+
+Theorem step_keeps_invariant : forall e o, Inv e -> Inv (snd (step e o)).
+Proof. exact step_Inv. Qed.
+Print Assumptions step_keeps_invariant.
+
+Theorem close_total_from_invariant : forall fin term e, Inv e ->
+  fst (close fin term e) = Ok /\ closed (snd (close fin term e)) = true /\
+  Forall (fun w => stat w = Dead) (ws (snd (close fin term e))).
+Proof. exact close_total_from_inv_lemma. Qed.
+Print Assumptions close_total_from_invariant.
+
+Theorem sync_exception_is_genuine : forall plans0 k e, Inv e -> GI plans0 e ->
+  GI plans0 (snd (sync k e)) /\ (forall x, fst (sync k e) = Exc x -> real plans0 x).
+Proof. exact sync_genuine_lemma. Qed.
+Print Assumptions sync_exception_is_genuine.
+
+(* calls rejected for their arguments (set_attr with the wrong number of values, reset_async with the wrong number of
+   seeds) change nothing, so the environment stays usable *)
+Theorem arg_rejected_unchanged : forall e,
+  snd (arg_rejected e) = e /\ (closed e = false -> fst (fst (arg_rejected e)) = true) /\
+  (closed e = true -> fst (arg_rejected e) = (false, ClosedErr)).
+Proof. exact arg_rejected_unchanged_lemma. Qed.
+Print Assumptions arg_rejected_unchanged.
+
 (* ---- refutations of the earlier behaviours (concrete runs of the model of that code) ---- *)
 Theorem close_after_kill_refuted : exists plans ops,
   let '(rs, e) := run_gen V_pinned (init plans) ops in
@@ -242,3 +323,18 @@ Proof.
   - vm_compute. constructor; [right; eexists; reflexivity|]. constructor; [left; reflexivity|].
     constructor; [right; eexists; reflexivity|]. constructor.
 Qed.
+
+Example sync_nonvacuous :
+  let e0 := init [plan_of [Normal; Raise 4]; plan_of [Normal; Normal; Die]; plan_of []] in
+  let '(o1, e1) := sync KReset e0 in let '(o2, e2) := sync KStep e1 in
+  let '(o3, e3) := sync KCall e2 in let '(o4, e4) := sync KCall e3 in
+  (o1, o2, o3, o4) = (Ok, Exc 4, AttrErr, AttrErr) /\ got e1 = [0; 0; 0] /\ fst (close false false e4) = Ok.
+Proof. vm_compute. auto. Qed.
+
+Example kill_any_time_nonvacuous :
+  let e := init [plan_of [Sleep]; plan_of []; plan_of [Raise 2]] in
+  let ops := [OKill 1; ORelease; OKill 0] in
+  Forall harness_op ops /\ fst (async KStep e) = Ok /\
+  fst (wait KStep false (snd (run (snd (async KStep e)) ops))) = Exc 2 /\
+  fst (wait KStep false (snd (run (snd (async KStep e)) [OKill 1; OKill 0]))) = EOFErr.
+Proof. vm_compute. repeat split; auto; repeat constructor. Qed.
